@@ -243,11 +243,68 @@ func (a *acc) flush(test string) {
 			nt = 0
 		}
 		name := a.h.name + "/" + a.flav + "/" + c
-		if strings.HasPrefix(c, "observe_mid:") || strings.HasPrefix(c, "input:") {
+		if strings.HasPrefix(c, "observe_mid:") || strings.HasPrefix(c, "input:") || strings.HasPrefix(c, "refused_call_then_continue:") {
 			name = c // cross-cutting classes that conf/c16.py declares mandatory
 		}
 		rep.Count(test, name, n, nt, a.sample[c])
 	}
+}
+
+// ---- refused calls -------------------------------------------------------------------------------
+
+// proveOutcome is everything Prove() lets a caller observe, including the documented usage panic of a
+// tree on which SetIndex was never (successfully) called.
+type proveOutcome struct {
+	panicked bool
+	root     []byte
+	ps       [][]byte
+	idx, nl  uint64
+}
+
+func tryProve(tr *merkletree.Tree) (o proveOutcome) {
+	defer func() {
+		if r := recover(); r != nil {
+			o = proveOutcome{panicked: true}
+		}
+	}()
+	o.root, o.ps, o.idx, o.nl = tr.Prove()
+	return
+}
+
+func (o proveOutcome) equal(p proveOutcome) bool {
+	if o.panicked != p.panicked || !bytes.Equal(o.root, p.root) || (o.root == nil) != (p.root == nil) || o.idx != p.idx || o.nl != p.nl || len(o.ps) != len(p.ps) || (o.ps == nil) != (p.ps == nil) {
+		return false
+	}
+	for j := range o.ps {
+		if !bytes.Equal(o.ps[j], p.ps[j]) {
+			return false
+		}
+	}
+	return true
+}
+
+func (o proveOutcome) String() string {
+	if o.panicked {
+		return "panic"
+	}
+	return fmt.Sprintf("root=%x proofSet=%s index=%d numLeaves=%d", o.root, hexs(o.ps), o.idx, o.nl)
+}
+
+// refusedSetIndex calls SetIndex(j) on a NON-EMPTY tree: the documented error must come back, and the tree
+// must behave exactly as if the call had not been made — immediately (Root, Prove incl. the usage panic of a
+// plain tree) and, as the caller goes on using the tree, in everything that is compared later.
+func refusedSetIndex(tr *merkletree.Tree, j uint64) error {
+	rootBefore, proveBefore := tr.Root(), tryProve(tr)
+	if err := tr.SetIndex(j); err == nil {
+		return fmt.Errorf("SetIndex(%d) on a non-empty tree returned no error", j)
+	}
+	if got := tr.Root(); !bytes.Equal(got, rootBefore) {
+		return fmt.Errorf("refused SetIndex(%d) changed Root(): %x -> %x", j, rootBefore, got)
+	}
+	if got := tryProve(tr); !got.equal(proveBefore) {
+		return fmt.Errorf("refused SetIndex(%d) changed what Prove() does:\nbefore: %v\n after: %v", j, proveBefore, got)
+	}
+	return nil
 }
 
 // ---- slices with dirty spare capacity ----------------------------------------------------------
